@@ -15,7 +15,7 @@ from __future__ import annotations
 import itertools
 
 from ..absint import TOP, Evaluator, Lin, Obj, Sym, Unmodelled
-from ..harness import da_attr_models, da_method_models
+from ..harness import foreign_ops, da_attr_models, da_method_models
 from ..xmodel import COMMON_MODELS, dimsym, make_axis, make_da, make_grid
 from .c01 import check_pad_basic
 
@@ -182,8 +182,9 @@ def check(ctx):
                 bad = "all widths are zero but the array is padded / not returned as given"
             elif isinstance(o.value, Obj):
                 # what pad() returns is the (coordinate-stripped) input, padded - nothing else may touch the values
-                neutral = ("reset_coords", "reset_index", "drop_vars", "copy", "transpose", "PAD_BASIC", "PAD_FACE")
-                others = [e[0] for e in o.value.eff if e[0] not in neutral]
+                others, unknown_ops = foreign_ops(o.value.eff, expected=("PAD_BASIC", "PAD_FACE"))
+                if unknown_ops:
+                    raise Unmodelled(f"operation(s) {unknown_ops} on the array pad() returns")
                 if o.value.name != "da" or others:
                     bad = f"pad() returns {o.value.name!r} after {[e[0] for e in o.value.eff]}: besides stripping coordinates and padding, the values go through {others or 'another array'}"
         if bad:
